@@ -64,7 +64,9 @@ def universe():
     # a path wildcard whose look-ahead literal is followed by another wildcard; filters whose regex looks at its surroundings
     # (anchor, word boundary, look-behind): a filter sees only the text from the cursor on
     u += [(L('a/'), W('p', 'path'), L('/by/'), W('x')), (L('a/'), W('x', 're', r'^\d+')), (L('a'), W('x', 're', r'\b\d+')),
-          (L('a'), W('x', 're', r'(?<=a)\d+')), (L('a/'), W('x', 're', r'(?<!/)\d+'))]
+          (L('a'), W('x', 're', r'(?<=a)\d+')), (L('a/'), W('x', 're', r'(?<!/)\d+')),
+          # a second continuation after a filtered wildcard that starts with another character than '/'
+          (L('a/'), W('x', 'int'), L('-v'))]
     return u
 
 
@@ -77,7 +79,7 @@ def core_rules(u):
             (L('a/'), W('x', 're', 'a+')), (L('a/'), W('p', 'path')), (W('x'), L('/a')), (L('a'), W('x')), (L('a'), W('x', 'int')),
             (W('x', 're', 'a+'), L('b')), (L('a/'), W('x'), L('/b')), (L('a/'), W('x', 'int'), L('/b')),
             (L('a/'), W('x'), L('/'), W('y')), (W('x'), L('/a/'), W('y')), (L('a/'), W('p', 'path'), L('end')), (),
-            (L('a/'), W('p', 'path'), L('/by/'), W('x')), (L('a'), W('x', 're', r'\b\d+'))]
+            (L('a/'), W('p', 'path'), L('/by/'), W('x')), (L('a'), W('x', 're', r'\b\d+')), (L('a/'), W('x', 'int'), L('-v'))]
     return [u.index(r) for r in want]
 
 
@@ -102,7 +104,10 @@ def paths_for(rules, nstr):
 
 def shards(tier, seed):
     u = universe()
-    out = [('flavours', None, None), ('single', None, None), ('names', None, None)]
+    out = [('flavours', None, None), ('single', None, None), ('names', None, None), ('samemask', None, None)]
+    cidx0 = core_rules(universe())
+    for i in cidx0:
+        out.append(('removed', i, None))
     for i in range(len(u)):
         out.append(('pairs', i, None))
     cidx = core_rules(u)
@@ -255,6 +260,66 @@ def work(spec):
         for j, k in itertools.combinations(rest, 2):
             check_set(res, rmod, u, [a, j, k], 3)
         core.add_sample(res, {'first_rule': rr.default_text(u[a]), 'triples': len(rest) * (len(rest) - 1) // 2, 'orders_each': 6})
+    elif kind == 'removed':
+        # the registered set after a removal: three rules registered, one removed again, survivors must resolve as a plain set
+        pool = core_rules(u)
+        rest = [j for j in pool if pool.index(j) > pool.index(a)]
+        for j, k in itertools.combinations(rest, 2):
+            trio = [a, j, k]
+            for gone in range(3):
+                for perm in itertools.permutations(range(3)):
+                    rules = [u[trio[x]] for x in perm]
+                    router, handlers, err = build(rmod, rules)
+                    res['states'] += 1
+                    if err:
+                        c['rejected_sets'] += 1
+                        continue
+                    try:
+                        router.remove(rr.default_text(u[trio[gone]]))
+                    except Exception as e:   # noqa
+                        core.add_violation(res, {'kind': 'removed', 'ast': [list(map(list, r)) for r in rules], 'gone': perm.index(gone), 'path': None},
+                                           f'remove({rr.default_text(u[trio[gone]])!r}) raised {type(e).__name__}', sig='remove-raised')
+                        continue
+                    c['routers'] += 1
+                    surv = [r for x, r in zip(perm, rules) if x != gone]
+                    for p in paths_for([u[t] for t in trio], 2):
+                        exp = expect(surv, p)
+                        got = observe(router, p)
+                        if got is not None and len(got) == 2 and isinstance(got[0], int):
+                            # handler indices refer to the registration order of all three rules
+                            got = (surv.index(rules[got[0]]) if rules[got[0]] in surv else 'removed-rule', got[1])
+                        res['transitions'] += 1
+                        if not same(got, exp):
+                            core.add_violation(res, {'kind': 'removed', 'ast': [list(map(list, r)) for r in rules], 'gone': perm.index(gone), 'path': p},
+                                               f'rules {[rr.default_text(r) for r in rules]} minus #{perm.index(gone)}: path {p!r}: router {got!r}, reference {exp!r}',
+                                               sig='after-removal:' + sig_for(p, got, exp))
+        core.add_sample(res, {'first_rule': rr.default_text(u[a]), 'registered_then_one_removed': True})
+    elif kind == 'samemask':
+        # filters are built once per process: rules whose filters share a regex text, registered in both orders
+        pairs = [((L('i/'), W('n', 'int')), (L('r/'), W('n', 're', r'-?\d+'))),
+                 ((L('f/'), W('n', 'float')), (L('r/'), W('n', 're', r'-?\d+(\.\d+)?'))),
+                 ((L('i/'), W('n', 'int')), (L('f/'), W('n', 'float'))),
+                 ((L('p/'), W('p', 'path')), (L('r/'), W('p', 're', '.+$')))]
+        for pair in pairs:
+            for order in (pair, pair[::-1]):
+                sut.load(fresh=True)
+                rmod2 = sut.sub('router.radirouter')
+                router, handlers, err = build(rmod2, list(order))
+                res['states'] += 1
+                c['routers'] += 1
+                if err:
+                    continue
+                ps = sorted(set(paths_for(list(order), 2)) | {x + '/' + v for x in ('i', 'r', 'f', 'p') for v in ('007', '-0', '1.10', '7', 'a/b', '1e5')})
+                for p in ps:
+                    exp = expect(list(order), p)
+                    got = observe(router, p)
+                    res['transitions'] += 1
+                    if not same(got, exp):
+                        core.add_violation(res, {'kind': 'samemask', 'ast': [list(map(list, r)) for r in order], 'path': p},
+                                           f'fresh process, rules {[rr.default_text(r) for r in order]} in this order: path {p!r}: router {got!r}, reference {exp!r}',
+                                           sig='same-mask-filters:' + sig_for(p, got, exp))
+        sut.load(fresh=True)
+        core.add_sample(res, {'same_mask_pairs': [[rr.default_text(r) for r in pr] for pr in pairs]})
     elif kind == 'flavours':
         for r in u:
             texts = rr.renderings(r)
@@ -375,6 +440,31 @@ def _ast(a):
 def replay(case):
     rmod = _router_mod()
     kind = case['kind']
+    if kind == 'samemask':
+        sut.load(fresh=True)
+        rmod = sut.sub('router.radirouter')
+        rules = [_ast(r) for r in case['ast']]
+        router, handlers, err = build(rmod, rules)
+        exp = expect(rules, case['path'])
+        got = observe(router, case['path'])
+        sut.load(fresh=True)
+        if same(got, exp):
+            return None
+        return (f'in a fresh process the rules {[rr.default_text(r) for r in rules]} are registered in this order: resolve({case["path"]!r}) gives '
+                f'{got!r}; the reference gives {exp!r}')
+    if kind == 'removed':
+        rules = [_ast(r) for r in case['ast']]
+        router, handlers, err = build(rmod, rules)
+        router.remove(rr.default_text(rules[case['gone']]))
+        surv = [r for i, r in enumerate(rules) if i != case['gone']]
+        exp = expect(surv, case['path'])
+        got = observe(router, case['path'])
+        if got is not None and len(got) == 2 and isinstance(got[0], int):
+            got = (surv.index(rules[got[0]]) if rules[got[0]] in surv else 'removed-rule', got[1])
+        if same(got, exp):
+            return None
+        return (f'rules {[rr.default_text(r) for r in rules]} registered, then {rr.default_text(rules[case["gone"]])!r} removed: resolve({case["path"]!r}) '
+                f'gives {got!r}; the survivors alone give {exp!r}')
     if kind in ('set', 'flavour'):
         if kind == 'set':
             rules = [_ast(r) for r in case['ast']]
